@@ -220,7 +220,7 @@ theorem coalesce_idem (s : Stream) : coalesce (coalesce s) = coalesce s := by
 /-! ### the loop: `feed` with its queue against a queue-free run -/
 
 /-- one batch without the queue: the new state and the events of the batch -/
-def run {κ cb : Type} (L : Layer κ cb) : κ → List (Item cb) → Except PyExc (κ × Stream)
+def run {κ cb ε : Type} (L : LayerG κ cb ε) : κ → List (Item cb) → Except PyExc (κ × List ε)
   | k, [] => .ok (k, [])
   | _, .raise e :: _ => .error e
   | k, .cb c :: rest =>
@@ -231,7 +231,7 @@ def run {κ cb : Type} (L : Layer κ cb) : κ → List (Item cb) → Except PyEx
       | .error e => .error e
       | .ok (k'', q) => .ok (k'', evs ++ q)
 
-theorem feed_eq_run {κ cb : Type} (L : Layer κ cb) : ∀ (items : List (Item cb)) (k : κ) (q : Stream),
+theorem feed_eq_run {κ cb ε : Type} (L : LayerG κ cb ε) : ∀ (items : List (Item cb)) (k : κ) (q : List ε),
     feed L k q items = (match run L k items with
       | .error e => .error e
       | .ok (k', q') => .ok (k', q ++ q'))
@@ -249,14 +249,14 @@ theorem feed_eq_run {κ cb : Type} (L : Layer κ cb) : ∀ (items : List (Item c
         | error e => simp
         | ok r' => obtain ⟨k'', q'⟩ := r'; simp [List.append_assoc]
 
-theorem feed_nil_eq_run {κ cb : Type} (L : Layer κ cb) (items : List (Item cb)) (k : κ) :
+theorem feed_nil_eq_run {κ cb ε : Type} (L : LayerG κ cb ε) (items : List (Item cb)) (k : κ) :
     feed L k [] items = run L k items := by
   rw [feed_eq_run]
   cases run L k items with
   | error e => rfl
   | ok r => obtain ⟨k', q'⟩ := r; simp
 
-theorem eager_append_ok {κ cb : Type} (L : Layer κ cb) : ∀ (a b : List (Item cb)) (k k' : κ) (q : Stream),
+theorem eager_append_ok {κ cb ε : Type} (L : LayerG κ cb ε) : ∀ (a b : List (Item cb)) (k k' : κ) (q : List ε),
     run L k a = .ok (k', q) →
     eager L k (a ++ b) = (q ++ (eager L k' b).1, (eager L k' b).2)
   | [], b, k, k', q, h => by
@@ -281,7 +281,7 @@ theorem eager_append_ok {κ cb : Type} (L : Layer κ cb) : ∀ (a b : List (Item
           rw [eager_append_ok L rest b k1 k2 q2 hr]
           simp [List.append_assoc]
 
-theorem eager_append_error {κ cb : Type} (L : Layer κ cb) : ∀ (a b : List (Item cb)) (k : κ) (e : PyExc),
+theorem eager_append_error {κ cb ε : Type} (L : LayerG κ cb ε) : ∀ (a b : List (Item cb)) (k : κ) (e : PyExc),
     run L k a = .error e → (eager L k (a ++ b)).2 = some e
   | [], b, k, e, h => by simp [run] at h
   | .raise e' :: rest, b, k, e, h => by
@@ -301,10 +301,24 @@ theorem eager_append_error {κ cb : Type} (L : Layer κ cb) : ∀ (a b : List (I
           exact eager_append_error L rest b k1 _ hr
         | ok r' => obtain ⟨k2, q2⟩ := r'; simp [hr] at h
 
+theorem eager_none_run_ok {κ cb ε : Type} (L : LayerG κ cb ε) (items : List (Item cb)) (k : κ)
+    (h : (eager L k items).2 = none) :
+    ∃ k' q, run L k items = .ok (k', q) ∧ eager L k items = (q ++ L.finish k', none) := by
+  cases hr : run L k items with
+  | error e =>
+    have := eager_append_error L items [] k e hr
+    simp only [List.append_nil] at this
+    rw [this] at h; simp at h
+  | ok r =>
+    obtain ⟨k', q⟩ := r
+    have := eager_append_ok L items [] k k' q hr
+    simp only [List.append_nil, eager] at this
+    exact ⟨k', q, rfl, this⟩
+
 /-- **batches never matter**: `_generate` ends with the exception the queue-free run of the
     concatenated batches ends with; it has yielded a beginning of that run's events, and all of
     them when nothing was raised -/
-theorem generate_vs_eager {κ cb : Type} (L : Layer κ cb) : ∀ (reads : List (Read cb)) (k : κ)
+theorem generate_vs_eager {κ cb ε : Type} (L : LayerG κ cb ε) : ∀ (reads : List (Read cb)) (k : κ)
     (close : List (Item cb)),
     (generate L k reads close).2 = (eager L k (reads.flatMap Read.toItems ++ close)).2 ∧
     (generate L k reads close).1 <+: (eager L k (reads.flatMap Read.toItems ++ close)).1 ∧
